@@ -796,7 +796,8 @@ void hx_gen(Rng &r, const std::string &tier)
     for (int a = -20; a <= 20; a++)
         for (int k = 0; k <= 6; k++) {
             emit("mp shl " + S(a) + " " + S(k), "small-bits");
-            emit("mp shr " + S(a) + " " + S(k), "small-bits");
+            if (a >= 0) // `>>` of a negative value is backend dependent and never used by symengine (docs)
+                emit("mp shr " + S(a) + " " + S(k), "small-bits");
             emit("mp pow_ui " + S(a) + " " + S(k), "small-misc");
         }
     // conversions at the word boundaries
@@ -813,6 +814,47 @@ void hx_gen(Rng &r, const std::string &tier)
             emit("mp get_si " + s, "convert");
         if (mp_fits_ulong_p(zabs(z)))
             emit("mp get_ui " + s, "convert");
+    }
+    // ---- edge cases inside the domain GMP documents, on which the backends disagreed when this check
+    //      was written (docs/C43.md D1..D11)
+    for (int a = -4; a <= 4; a++)
+        emit("mp kronecker " + S(a) + " 0", "edge-kronecker-zero");
+    for (int a = -9; a <= 9; a++)
+        for (int n : {-1, -3, -5, -9, -15, -21, -35})
+            emit("mp jacobi " + S(a) + " " + S(n), "edge-jacobi-negative");
+    for (int i = 0; i <= (th ? 200 : 40); i++) {
+        emit("mp probab_prime_p " + S(-i), "edge-prime-negative");
+    }
+    {
+        // a non-perfect-power above 2^1024, with a time limit
+        emit("mp perfect_power_p_t " + zs(zpow(Z(2), 1030) + 1) + " 10", "edge-pp-large");
+        if (th) {
+            emit("mp perfect_power_p_t " + zs(zpow(Z(3), 700) + 2) + " 10", "edge-pp-large");
+            emit("mp perfect_power_p_t " + zs(zpow(Z(7), 130) - 2) + " 10", "edge-pp-large");
+            emit("mp perfect_power_p_t " + zs(zpow(Z(10), 400)) + " 10", "edge-pp-large");
+        }
+    }
+    {
+        // integer literals too long for `long`, with and without leading zeros (octal digits only after a
+        // leading zero: a literal such as 08 is tokenised differently, that is C17's business)
+        emit("parse 0777777777777777777777777", "parse-leading-zero");
+        emit("parse -0777777777777777777777777", "parse-leading-zero");
+        emit("parse 00000000000000000000000000000000000012345671234567123456712345671", "parse-leading-zero");
+        for (int k = 0; k < (th ? 40 : 8); k++) {
+            std::string d;
+            unsigned len = 23 + (unsigned)r.below(30);
+            for (unsigned j = 0; j < len; j++)
+                d.push_back((char)('0' + r.below(8)));
+            if (d[0] == '0')
+                d[0] = '1';
+            emit(std::string("parse ") + (r.coin(1, 3) ? "-" : "") + "0" + d, "parse-leading-zero");
+            std::string e;
+            for (unsigned j = 0; j < len; j++)
+                e.push_back((char)('0' + r.below(10)));
+            if (e[0] == '0')
+                e[0] = '9';
+            emit(std::string("parse ") + (r.coin(1, 3) ? "-" : "") + e, "parse-plain");
+        }
     }
     // ---- random big arguments
     int N = th ? 1500 : 250;
@@ -914,7 +956,8 @@ void hx_gen(Rng &r, const std::string &tier)
                 emit("mp and " + ab, "big-bits");
                 emit("mp scan1 " + a, "big-bits");
                 emit("mp shl " + a + " " + S(r.below(200)), "big-bits");
-                emit("mp shr " + a + " " + S(r.below(200)), "big-bits");
+                if (a[0] != '-')
+                    emit("mp shr " + a + " " + S(r.below(200)), "big-bits");
                 break;
             case 11:
                 emit("mp arith " + ab, "big-arith");
